@@ -14,7 +14,7 @@ CONFIG = {
     'C06': dict(streams=[('inj_overlap', 1200), ('td_wf', 160), ('same_session', 80), ('newreq', 160)], keep='om', extra='wabort'),
     'C07': dict(streams=[('inj_cycle', 880), ('reorder_cycle', 240), ('cycle_query', 240), ('newreq', 160), ('mid_session', 240)], keep='ov'),
     'C08': dict(xcheck=True, streams=[('td_wf', 560), ('bu_wf', 320), ('multi', 80), ('panic', 240), ('abort_bu', 120), ('newreq', 160), ('same_abort', 80), ('fail_wf', 160)], keep='od'),
-    'C09': dict(streams=[('td_coarse', 880), ('bu_wf', 320), ('multi', 80), ('near_td', 300), ('near_bu', 200), ('panic', 120)], keep='dv', extra='stampsrc,lossy'),
+    'C09': dict(streams=[('td_coarse', 880), ('bu_wf', 320), ('multi', 80), ('near_td', 300), ('near_bu', 200), ('panic', 120), ('multi_read', 60)], keep='dv', extra='stampsrc,lossy'),
     'C16': dict(streams=[('td_wf', 240), ('bu_wf', 240), ('mixed_wf', 120), ('newreq', 160), ('abort_bu', 200), ('panic', 160)], keep='oevdm', two_process=True, extra='fsclock'),
     'C17': dict(streams=[('td_wf', 480), ('bu_wf', 480), ('fail_wf', 240), ('panic', 160), ('failstamp', 160)], keep='v', extra='tracker'),
     'C18': dict(streams=[('fail_wf', 800), ('fail_bu', 500), ('fail_mixed', 300), ('fail_panic', 400)], keep='eov', extra='flaky'),
@@ -82,6 +82,9 @@ def make_case(rng, stream, big=False):
         p, steps, meta = P.gen_mid_session_program(rng)
         m = norm_meta(meta, 'bu')      # compared with the model (Build.run_msession)
         return p, steps, m
+    if stream == 'multi_read':
+        p, steps = P.gen_multi_read_program(rng)
+        return p, steps, norm_meta({}, 'td')
     if stream == 'multi':
         p = P.gen_multi_program(rng)
         steps = [['E', '0', '1'], ['S', '1', 'q', '0'], ['E', '0', '2'], ['S', '1', 'q', '0'], ['S', '1', 'q', '0']]
@@ -545,6 +548,14 @@ def mine(prop, pr, sig):
 
 def remap(prog, pr, sig, toks=None):
     """attribute findings of special streams"""
+    if prog.kind == 'multi' and sig in ('stale-output', 'stale-resource') and toks and any(toks[i] == 'R' and toks[i + 1] == '0' and toks[i + 3] == 'R' and toks[i + 4] == '0' for i in range(len(toks) - 5)):
+        # the read form: one task reads resource 0 twice with two checkers; the store keeps the FIRST read's checker.  The recorded
+        # finding explains a stale result only if that first checker is the more lenient one (0 exact < 1 parity < 2 exists < 3 always)
+        i = next(i for i in range(len(toks) - 5) if toks[i] == 'R' and toks[i + 1] == '0' and toks[i + 3] == 'R' and toks[i + 4] == '0')
+        c1, c2 = int(toks[i + 2]), int(toks[i + 5])
+        if c1 > c2:
+            return 'C08', 'multi-checker-stale'
+        return 'C09', 'first-read-checker-lost'
     if prog.kind == 'multi' and sig in ('stale-output', 'stale-resource'):
         # the recorded finding O7 is: only the LAST checker is recorded.  It explains a stale result only if the last of the two
         # checkers is the more lenient one (checker ids: 0 equals < 1 < 2 always)
